@@ -1,9 +1,14 @@
 ID = "C02"
 LEVEL = "proof"
 CONTRACT_MODULES = ["contracts.sorting", "contracts.refcount", "contracts.tasks", "contracts.tasks_proto"]
-FUNCTIONS = ["_dfs", "toposort", "Manager.find_taskids", "Manager.find_tasks", "Manager.run_tasks", "Manager.set_value"]
+FUNCTIONS = ["_dfs", "toposort", "Manager.find_taskids", "Manager.find_tasks", "Manager.run_tasks", "Manager.set_value",
+             "Manager.copy@independent-copy"]
 # the indices the downstream set is read from are maintained by register/unregister (C03)
-BORROW = [('C03', ['Manager.register', 'Manager.unregister'])]
+# "exactly those tasks that transitively DEPEND on the assigned location": a task's dependencies are what the walkers report for its expression (proved under C05),
+# stored unchanged by ExprTask.__init__ (proved under C01)
+BORROW = [('C03', ['Manager.register', 'Manager.unregister']),
+          ('C05', ['MutableRef._get_dependencies', 'Ref._get_dependencies', 'BinOpExpr._get_dependencies', 'UnaryOpExpr._get_dependencies', 'LiteralExpr._get_dependencies', 'BuiltinRef._get_dependencies', 'CallRef._get_dependencies']),
+          ('C01', ['ExprTask.__init__'])]
 RAC = "rac/c02.py"
 RAC_BUDGET = {"quick": 60, "thorough": 600}
 RAC_MIN = {"quick": 16038, "thorough": 16038}      # fewer run-time evaluations than this = the harness skipped its work: checker broken, not "held"
